@@ -78,12 +78,18 @@ func (c *descCtx) d(v ssa.Value) string {
 	case *ssa.Alloc:
 		return p.allocName(x)
 	case *ssa.FieldAddr:
-		return c.d(x.X) + "." + fieldName(x.X.Type(), x.Field)
+		return c.cellOr(x.X) + "." + fieldName(x.X.Type(), x.Field)
 	case *ssa.Field:
 		return c.d(x.X) + "." + fieldName(x.X.Type(), x.Field)
 	case *ssa.IndexAddr:
-		return c.d(x.X) + "[" + c.d(x.Index) + "]"
+		if isRangeIndex(x.Index) {
+			return "val(range " + c.cellOr(x.X) + ")"
+		}
+		return c.cellOr(x.X) + "[" + c.d(x.Index) + "]"
 	case *ssa.Index:
+		if isRangeIndex(x.Index) {
+			return "val(range " + c.d(x.X) + ")"
+		}
 		return c.d(x.X) + "[" + c.d(x.Index) + "]"
 	case *ssa.Lookup:
 		return c.d(x.X) + "[" + c.d(x.Index) + "]"
@@ -225,6 +231,31 @@ func (c *descCtx) d(v ssa.Value) string {
 		return "select"
 	}
 	return fmt.Sprintf("?%T", v)
+}
+
+// cellOr describes an address base: a single-assignment local cell is
+// replaced by the value stored into it.
+func (c *descCtx) cellOr(v ssa.Value) string {
+	if a := c.p.resolveCell(v); a != nil {
+		if sv := c.p.singleStore(a); sv != nil && !c.visited[sv] {
+			c.visited[sv] = true
+			s := c.d(sv)
+			delete(c.visited, sv)
+			return s
+		}
+	}
+	return c.d(v)
+}
+
+// isRangeIndex recognises the index expression go/ssa generates for
+// "for i, v := range slice": (phi #rangeindex) + 1.
+func isRangeIndex(v ssa.Value) bool {
+	b, ok := v.(*ssa.BinOp)
+	if !ok || b.Op != token.ADD {
+		return false
+	}
+	ph, ok := b.X.(*ssa.Phi)
+	return ok && ph.Comment == "rangeindex"
 }
 
 func (c *descCtx) args(vs []ssa.Value) string {
@@ -516,6 +547,7 @@ func (p *Program) CalleeNameOfFunc(f *ssa.Function) string {
 		if o := f.Origin(); o != nil && o != f {
 			return p.CalleeNameOfFunc(o)
 		}
+		return f.RelString(p.Pkg.Types)
 	}
 	return f.String()
 }
